@@ -151,6 +151,7 @@ def branch_name(I, obj) -> str:
 class BranchResult:
     def __init__(self):
         self.name = "no-object"
+        self.sentinel = False
         self.labels: List[str] = []
         self.kind = ""
         self.detail = ""
@@ -201,6 +202,7 @@ def analyse_pair(repo, reader: FuncInfo, writer_name: str, N: int, kind: str = "
         I.st = st
         br = BranchResult()
         br.labels = [f"{'' if d else '!'}{l}" for l, d in zip(st.labels, st.decisions)]
+        br.sentinel = any(d and l.startswith("__init__:") and l.endswith("==0") for l, d in zip(st.labels, st.decisions))
         br.assumed = list(st.assumed)
         out.append(br)
         if k == "abort":
